@@ -534,6 +534,22 @@ fn shape_cases(tier: Tier) -> Vec<Case> {
             }
         }
     }
+    // many rings: k outer rings, the i-th with i % 3 holes, for every k up to 48 (no count class skipped)
+    for ty in [Ty::Polygon, Ty::PolygonZ] {
+        for k in 1..=48usize {
+            let mut parts = vec![];
+            let mut idx = 0usize;
+            for i in 0..k {
+                parts.push(MPart { kind: 0, pts: to_p4(&ring_templates(10.0 * idx as f64)[if i % 2 == 0 { 0 } else { 2 }], idx) });
+                idx += 1;
+                for _ in 0..(i % 3) {
+                    parts.push(MPart { kind: 1, pts: to_p4(&ring_templates(10.0 * idx as f64)[1], idx) });
+                    idx += 1;
+                }
+            }
+            v.push(Case::Shape(MShape { ty, parts }));
+        }
+    }
     // rings whose last vertex is a floating-point neighbour of the first (a different vertex: the
     // constructors close such a ring, geo-types would close it too)
     for ty in [Ty::Polygon, Ty::PolygonM, Ty::PolygonZ] {
@@ -733,7 +749,7 @@ pub fn check(tier: Tier) -> i32 {
             tier,
             level: "model_checking",
             engine: "E2 enumerator on the real From/TryFrom impls between shapefile and geo-types values and the geo-traits accessors (library built with features geo-types + geo-traits)",
-            rule: "shapes: Point/PointM/PointZ with <= 2 special values from the per-dimension alphabets; Multipoint* of 1-3 points and Polyline* structures with one X/Y slot replaced by every value of F_xy; Polygon*: every role word of the outer-first language O I{0..2} (O I{0..2}){0..2} x ring templates {triangle cw/ccw, square cw/ccw, zero-area, open triangle} (all combinations up to 3 rings, a rotating choice above); multipatches: every kind vector of length 1-3 over the 6 kinds (ring-only ones convert, any strip / fan is refused); NullShape; geo-types: Point, Line, LineString, MultiLineString (1-3), MultiPoint (1-3), Polygon with 0-2 holes x templates, MultiPolygon of 1-3 polygons, Rect, Triangle, GeometryCollection; geo-traits: every Point/PointM/PointZ with <= 2 special values from the full alphabet (no-data, below-threshold, NaN measures included), and every point of Multipoint*/Polyline* structures reached through the MultiPointTrait / MultiLineStringTrait views with one slot replaced by every value of its alphabet; every case is non-trivial",
+            rule: "shapes: Point/PointM/PointZ with <= 2 special values from the per-dimension alphabets; Multipoint* of 1-3 points and Polyline* structures with one X/Y slot replaced by every value of F_xy; Polygon*: every role word of the outer-first language O I{0..2} (O I{0..2}){0..2} x ring templates {triangle cw/ccw, square cw/ccw, zero-area, open triangle} (all combinations up to 3 rings, a rotating choice above), and k outer rings with 0-2 holes each for every k up to 48; multipatches: every kind vector of length 1-3 over the 6 kinds (ring-only ones convert, any strip / fan is refused); NullShape; geo-types: Point, Line, LineString, MultiLineString (1-3), MultiPoint (1-3), Polygon with 0-2 holes x templates, MultiPolygon of 1-3 polygons, Rect, Triangle, GeometryCollection; geo-traits: every Point/PointM/PointZ with <= 2 special values from the full alphabet (no-data, below-threshold, NaN measures included), and every point of Multipoint*/Polyline* structures reached through the MultiPointTrait / MultiLineStringTrait views with one slot replaced by every value of its alphabet; every case is non-trivial",
             bounds: json!({"cases": cases.len(), "max_rings": 9, "max_patches": 3}),
             exhaustive: true,
             assumptions: vec![
